@@ -342,8 +342,25 @@ let run_event (ev : event) (obs : string list) : string =
 
 let () =
   reg "pkt" (fun args obs -> match args with
-      | [ip; port; size; d] ->
+      | [ip; port; size; d; raw] ->
         let dec = if d = "undec" then None else Some (msg_of_dump d) in
+        (* byte-level tie: the codec model (Krpc.v) must decode these bytes to the same message the
+           library produced (processPacket: dict pre-check, trailing bytes tolerated) *)
+        let rawb = bytes_of_hex (String.sub raw 4 (String.length raw - 4)) in
+        let pre = (match rawb with b0 :: _ :: _ -> int_of_byte b0 = 100 | _ -> false) in
+        let mdec = if not pre then None else
+            (match decode_msg_fixed rawb with
+             | DOk m -> Some m
+             | DOkTrailing (m, _) -> Some m
+             | _ -> None) in
+        let same = (match dec, mdec with
+            | None, None -> true
+            | Some a, Some b -> dump_of_msg a = dump_of_msg b
+            | _ -> false) in
+        if not same then
+          Printf.sprintf "REJECT byte-level decode differs: codec model gives %s"
+            (match mdec with None -> "undec" | Some m -> dump_of_msg m)
+        else
         run_event (EPacket (addr_of ip port, n_of_dec size, dec)) obs
       | _ -> "?");
   reg "adv" (fun args obs -> match args with [d] -> run_event (EAdvance (z_of_dec d)) obs | _ -> "?");
